@@ -305,6 +305,14 @@ def invalid_cases(rng, ng, table_names):
             parts[tgt + 1] = bogus + parts[tgt + 1][parts[tgt + 1].index("\n"):]
             text = "  - action: ".join(parts)
         out.append(with_text("action written as a variable reference %s (%s action)" % (bogus, where), text))
+    # a valid name with white space around it (quoted, or as a block scalar, so that the YAML reader keeps it): not a name of
+    # the table
+    for bogus in ['"getppid "', '" getppid"', '"getppid\\n"', '"\\tgetppid"', "'getpid  '", '"getpid\\r"', '"get pid"']:
+        pol = good()
+        g = rng.choice(pol["groups"])
+        g["names"] = [n for n in g["names"] if n not in ("getppid", "getpid")]
+        g["names"].insert(rng.randint(0, len(g["names"])), "@BOGUS@")
+        out.append(with_text("syscall name with white space around it: %s" % bogus, render_yaml(pol).replace("@BOGUS@", bogus)))
     for bogus in ['"${UNSET:getpid}"', '"${seccomp.syscalls.0.names.0}"', '"$getpid"']:
         pol = good()
         g = rng.choice(pol["groups"])
